@@ -92,6 +92,7 @@ class Gen12(gen_c10.Gen):
         fn = self.fresh("ex")
         self.emit(0, f"def {fn}(a, b: {self.union_annot()}, *rest, **kw):")
         exprs = [
+            "'\u00e4\u00f6\u00fc\u00e4\u00f6\u00fc\u00e4\u00f6\u00fc\u00e4\u00f6\u00fc' + undefined_uu", "('\u65e5\u672c\u8a9e' * 3, a.nope_\u00e9)", "'\U0001f600\U0001f600\U0001f600' % (a, b)",
             "[x for x in b]", "{x: y for x, y in a}", "{x for x in rest if x}", "(x async for x in a)" if False else "(x for x in kw.values())",
             "lambda x, *y, z=1, **w: (x, y, z, w)", "(lambda: undefined_zz)()", "[*a, *b]", "{**kw, 'k': 1}", "(*rest, 1)", "print(*a, **b)",
             "f'{a!r:>{b}} {b=}'", "f'{a:{b}.{a}}'", "f'{undefined_yy}'", "(y := a) + y", "[z := 1, z ** 2]", "a if b else rest",
@@ -182,6 +183,58 @@ class Gen12(gen_c10.Gen):
         self.emit(1, f"{sub}.meth(1)")
         self.emit(0, "")
 
+    def literal_union_section(self):
+        """Large literal unions (>= 10 members: MultiValuedValue's hashed fast path),
+        as annotations and as if/elif-merged values, against unhashable displays."""
+        r = self.rng
+        self.features.add("literal_union")
+        n = r.randrange(8, 14)
+        kind = r.randrange(3)
+        if kind == 0:
+            members = [str(i) for i in range(n)]
+        elif kind == 1:
+            members = [repr(chr(97 + i) * (1 + i % 2)) for i in range(n)]
+        else:
+            members = r.sample(["0", "1", "2", "'a'", "'b'", "None", "True", "b'x'", "3", "4", "'c'", "5", "6", "'zz'", "False"], min(n, 13))
+        alias = self.fresh("Lit")
+        self.emit(0, f"{alias} = Literal[{', '.join(members)}]")
+        take = self.fresh("take")
+        self.emit(0, f"def {take}(d: {alias}, e: Optional[{alias}] = None) -> {alias}:")
+        self.emit(1, "return d")
+        unhashable = ["[]", "{}", "{1, 2}", "[1]", "{'k': 1}", "[[1], {}]", "set()", "bytearray(b'x')", "[0]", "({}, [])", "[x for x in ()]"]
+        args = unhashable + members + ["(0,)", "'nope'", "99", "1.5", "object()", "len"]
+        self.emit(0, f"def {self.fresh('use')}(c, wide: {alias}):")
+        # a wide if/elif merge
+        v = r.choice(NAMES[:6])
+        self.emit(1, f"if c == 0: {v} = {members[0]}")
+        for i, m in enumerate(members[1:], 1):
+            self.emit(1, f"elif c == {i}: {v} = {m}")
+        self.emit(1, f"else: {v} = {r.choice(unhashable + members)}")
+        self.emit(1, f"reveal_type({v})")
+        for _ in range(r.randrange(3, 8)):
+            a = r.choice(args)
+            form = r.randrange(8)
+            if form == 0:
+                self.emit(1, f"{take}({a})")
+            elif form == 1:
+                self.emit(1, f"{take}({members[0]}, {a})")
+            elif form == 2:
+                self.emit(1, f"w{self.uid}: {alias} = {a}")
+            elif form == 3:
+                self.emit(1, f"reveal_type({v} == {a})")
+            elif form == 4:
+                self.emit(1, f"if wide in ({a}, {r.choice(args)}): reveal_type(wide)")
+            elif form == 5:
+                self.emit(1, f"if {v} == {a}: reveal_type({v})")
+            elif form == 6:
+                self.emit(1, f"{take}(d={a}, e={r.choice(args)})")
+            else:
+                self.emit(1, f"reveal_type({take}({v}, {a}))")
+        ret = self.fresh("ret")
+        self.emit(0, f"def {ret}(c) -> {alias}:")
+        self.emit(1, f"return {r.choice(unhashable)} if c else {r.choice(members)}")
+        self.emit(0, "")
+
     def program(self):
         r = self.rng
         self.lines = [gen_c10.HEADER + HEADER_EXTRA, "def helper(x, *, aa=0): return x", ""]
@@ -190,6 +243,7 @@ class Gen12(gen_c10.Gen):
             self.call_section, self.protocol_section, self.overload_section, self.typevar_section, self.typeddict_section,
             self.class_section, self.odd_annotation_section, self.odd_annotation_section, self.paramspec_section,
             self.decorator_section, self.expr_section, self.expr_section, self.match_section, self.async_section, self.class_odd_section,
+            self.literal_union_section, self.literal_union_section,
         ]
         for _ in range(r.randrange(3, 7)):
             r.choice(pieces)()
